@@ -902,7 +902,7 @@ def from_shorthand(shorthand_string, slash=None):
                     )
             elif isinstance(slash, list):
                 # Add polychords
-                r = slash
+                r = list(slash)
                 for n in res:
                     if n != r[-1]:
                         r.append(n)
